@@ -33,6 +33,7 @@ type Env struct {
 }
 
 var envDFS *sched.DFS // set by runDriver while a small scenario is being enumerated
+var lockTrace bool    // -locks 1: record which goroutines are simultaneously inside critical sections (C11)
 
 func NewEnv(mode string, seed int64, strategy string, replay []string, st *Stats, confirm bool, pollPrefixes ...string) *Env {
 	e := &Env{R: rec.New(), Mode: mode, St: st, Confirm: confirm, self: sched.Goid(), before: map[int64]bool{}}
@@ -40,7 +41,17 @@ func NewEnv(mode string, seed int64, strategy string, replay []string, st *Stats
 		e.before[g.Gid] = true
 	}
 	e.Opts = sched.Options{Seed: seed, Strategy: strategy, Replay: replay, PCTDepth: 3, IdleProb: 150, MaxSteps: 6000, PollPrefixes: pollPrefixes, DFS: envDFS}
+	ctl.OnHolders = nil
 	if mode == "c" {
+		if lockTrace {
+			ctl.OnHolders = func(held []sched.Arrival) {
+				hs := make([]map[string]any, len(held))
+				for i, h := range held {
+					hs[i] = map[string]any{"g": h.Role, "pt": h.Pt, "obj": h.Obj}
+				}
+				e.R.Add(rec.Ev{"ev": "locks", "held": hs})
+			}
+		}
 		ctl.Begin(e.Opts)
 	} else {
 		ctl.StartFree(seed, 4)
@@ -205,6 +216,10 @@ func runDriver(sr scenarioRunner, args map[string]string) {
 	}
 	rng := rand.New(rand.NewSource(seed))
 	strategies := []string{"hold", "random", "hold", "pct"}
+	if args["locks"] == "1" {
+		lockTrace = true
+		strategies = []string{"holdlock", "holdlock", "random", "hold"}
+	}
 	var fixed any
 	if sf := args["scenario"]; sf != "" {
 		b, err := os.ReadFile(sf)
